@@ -133,3 +133,29 @@ package cluster
 //@   ensures [keeps-cache-ok] cacheOK(c.core.Regions)
 //@   ensures [dropped] !in(c.core.Regions.regions, id)
 //@   modifies c.core.Regions.regions[*], all core.regionTree.totalSize, ghost bthas, ghost btlen
+
+// deleteStoreLocked (tombstone cleanup): the durable record is deleted BEFORE the store leaves the served map, so a
+// failed storage delete leaves the served stores unchanged (a buried store whose record could not be deleted is still
+// served - and refused - as Tombstone); on success exactly that store leaves the served map.
+//@ func (*RaftCluster).deleteStoreLocked
+//@   props C14
+//@   requires wfCluster(c) && store != nil && store.meta != nil
+//@   ensures [wf] wfCluster(c)
+//@   ensures [fail-unchanged] result != nil ==> (forall k uint64 :: {in(c.core.Stores.stores, k)} c.core.Stores.stores[k] == old(c.core.Stores.stores[k]) && in(c.core.Stores.stores, k) == old(in(c.core.Stores.stores, k)))
+//@   ensures [removed] result == nil ==> !in(c.core.Stores.stores, store.meta.Id)
+//@   ensures [others] forall k uint64 :: {in(c.core.Stores.stores, k)} k != store.meta.Id ==> c.core.Stores.stores[k] == old(c.core.Stores.stores[k]) && in(c.core.Stores.stores, k) == old(in(c.core.Stores.stores, k))
+//@   modifies c.core.Stores.stores[*], ghost kvhas, ghost kvval
+
+// RemoveTombStoneRecords: only stores that are served as Tombstone ever leave the served map, every other served
+// store stays exactly as it was, also when a storage delete fails half-way.
+//@ func (*RaftCluster).RemoveTombStoneRecords
+//@   props C14
+//@   requires wfCluster(c)
+//@   ensures [wf] wfCluster(c)
+//@   ensures [only-tombstones-leave] forall k uint64 :: {in(c.core.Stores.stores, k)} old(in(c.core.Stores.stores, k)) && !in(c.core.Stores.stores, k) ==> old(c.core.Stores.stores[k].meta.State) == 2
+//@   ensures [the-rest-stays] forall k uint64 :: {in(c.core.Stores.stores, k)} in(c.core.Stores.stores, k) ==> old(in(c.core.Stores.stores, k)) && c.core.Stores.stores[k] == old(c.core.Stores.stores[k])
+//@   loop 1 invariant wfCluster(c)
+//@   loop 1 invariant forall k uint64 :: {in(c.core.Stores.stores, k)} old(in(c.core.Stores.stores, k)) && !in(c.core.Stores.stores, k) ==> old(c.core.Stores.stores[k].meta.State) == 2
+//@   loop 1 invariant forall k uint64 :: {in(c.core.Stores.stores, k)} in(c.core.Stores.stores, k) ==> old(in(c.core.Stores.stores, k)) && c.core.Stores.stores[k] == old(c.core.Stores.stores[k])
+//@   loop 1 modifies c.core.Stores.stores[*], ghost kvhas, ghost kvval, ghost evres
+//@   modifies c.core.Stores.stores[*], ghost kvhas, ghost kvval, ghost evres
